@@ -57,7 +57,7 @@ def parse_conc_obs(obs):
 class C14(Base):
     ID = "C14"
     AREA = "memo"
-    LEMMA_FILES = ["FluentProofs/Memo.lean", "FluentProofs/MemoIntl.lean", "FluentProofs/MemoConc.lean"]
+    LEMMA_FILES = ["FluentProofs/Memo.lean", "FluentProofs/MemoIntl.lean", "FluentProofs/MemoReenter.lean", "FluentProofs/MemoConc.lean"]
     RULE = ("(seq) random histories of get_for_lang / IntlLangMemoizer::new / drop / with_try_get (direct and through "
             "fluent_bundle's MemoizerKind) over 6 languages, 3 counting formatter types (A, B never fail; F fails its "
             "first n constructions, n in {0,1,2,3,always}) and 8 argument strings, plus fail-then-succeed and "
